@@ -73,6 +73,10 @@ func pruneQuery(q string) string {
 						break
 					}
 				}
+				// (runeStr n) / (byteStr n) may occur as terms without their literal being mentioned
+				if !ok && len(a.syms) > 2 && (a.syms[2] == "runeStr" || a.syms[2] == "byteStr") && occ[a.syms[2]] {
+					ok = true
+				}
 				a.alive = ok
 			} else {
 				for _, alt := range a.alts {
